@@ -82,6 +82,8 @@ def run(ctx):
     ctx.translate({"GenRegex"})
     ctx.gate()
     props_ok, failing, log = ctx.props()
+    if props_ok:
+        ctx.findings(["Findings/C02_KF1.v"])
     ctx.build([v for v in MODEL_VO])
     runner = ctx.runner("parser", "ExtParser.v")
     rng = ctx.rng
